@@ -34,6 +34,49 @@ Proof.
   change (wboot fixes_none (wafter fixes_none 2) = Up n) in B. rewrite B in F. discriminate.
 Qed.
 
+(* The order of Reset's two writers.  [cap] is the capacity of the channel over which Reset hands its batches to
+   the persisting goroutine (0 in the code).  For every order that capacity admits and every number k of writes
+   that reached the disk: the reset marker is on disk, or the database is still the pre-reset one, or the reset is
+   complete; and start-up resumes the reset to height h and the database of the uninterrupted reset. *)
+Definition reset_order_statement (cap : nat) : Prop :=
+  forall (St Rt : Type) (exec : St -> N -> St) (root : St -> Rt) (genesis : St) (ntx : N -> N)
+         (PS trusted : N) (unroot : Rt -> St) (synced : db St Rt -> N -> bool) (mtb : N) (sync_root : N -> Rt),
+    1 < PS -> (forall j, unroot (root (st_at St exec genesis j)) = st_at St exec genesis j) ->
+    forall (d : db St Rt) (p : bool) (c hh h : N),
+      Inv exec root genesis ntx PS d p c hh -> h <= c ->
+      forall j k : nat, reset_admissible cap j = true -> (k <= 7)%nat ->
+        let bs := reset_batches St Rt ntx PS unroot fixes_all h c hh 1 d in
+        let x := apply_all d (firstn k (reset_order bs j)) in
+        ((exists s, get x KStage = Some (VStage true s)) \/ db_eq x d \/ k = 7%nat) /\
+        ((1 <= k)%nat ->
+         exists n, boot St Rt root genesis ntx PS trusted unroot fixes_all synced mtb sync_root x = Up n /\
+                   height n = h /\ hheight n = h /\ db_eq (disk n) (apply_all d bs)).
+
+Lemma reset_order_code : reset_order_statement 0.
+Proof.
+  intros St Rt exec root genesis ntx PS trusted unroot synced mtb sync_root HPS Hun d p c hh h I Hh j k Hj Hk bs x.
+  assert (J : (1 <= j <= 5)%nat).
+  { unfold reset_admissible in Hj. apply andb_true_iff in Hj as [A B].
+    apply Nat.leb_le in A. apply Nat.leb_le in B. simpl in A. lia. }
+  split.
+  - exact (reset_marker_or_intact exec root genesis ntx PS unroot fixes_all synced sync_root HPS Hun d c hh h Hh j k J Hk).
+  - intros K.
+    exact (reset_resumable_ordered exec root genesis ntx PS trusted unroot fixes_all synced mtb sync_root HPS Hun
+             d p c hh h I Hh j k Hj (conj K Hk) eq_refl eq_refl).
+Qed.
+
+(* without the edge "direct operation after the marker batch" (a channel that buffers 4 hand-overs) it is false *)
+Lemma reset_order_no_edge_refuted : ~ reset_order_statement 4.
+Proof.
+  intros H.
+  assert (PSb : 1 < wPS) by (unfold wPS; lia).
+  destruct (H N N wexec wroot 0 wntx wPS 0 (fun r => r) (fun _ _ => true) 6 (fun p => p) PSb
+              (fun j => eq_refl) wd false 3 3 1 wd_inv ltac:(lia) 0%nat 1%nat eq_refl ltac:(lia)) as [[(s & M)|[E|E]] _].
+  - vm_compute in M. discriminate.
+  - specialize (E (KState false)). vm_compute in E. discriminate.
+  - discriminate.
+Qed.
+
 (* Full statement for the jump (k = 0: everything synchronised, jump not started) *)
 Definition jump_resumable_statement (fx : fixes) : Prop :=
   forall (St Rt : Type) (root : St -> Rt) (genesis : St) (ntx : N -> N)
